@@ -32,7 +32,7 @@ ASSUMPTIONS = [
 FORMS = ["gopher", "gophers", "gplus", "gpluss", "gdollar", "gbang", "http", "https", "head", "wap",
          "waphdr", "gemini", "spartan"]
 MUTATIONS = ["none", "none", "none", "nul", "msg0", "msgneg", "msghuge", "msgx", "msgon", "slash", "dslash",
-             "dotdot", "missing", "pctnul", "qmark", "bar"]
+             "dotdot", "missing", "pctnul", "qmark", "bar", "dotseg", "dotseg"]
 RAW = ["\t\r\n", "x\t\r\n", "x\tq\t\r\n", "\t\t\t\t\r\n", "gemini://[/\r\n", "gemini://[::1/x\r\n", "gemini://\r\n",
        "gemini://h\r\n", "gemini://h/GEMINI-QUERY/x\r\n", "gemini://h/GEMINI-QUERY/x?a%20b\r\n",
        "GET / HTTP/1.0\r\n", "GET /", "GET / HTTP/1.0\r\nAccept", "GET /?searchrequest HTTP/1.0\r\n\r\n",
@@ -106,6 +106,8 @@ def _mutate(sel, mut):
         return sel + "/../" + sel.strip("/").split("/")[0]
     if mut == "missing":
         return sel + "-missing"
+    if mut == "dotseg":
+        return (sel if sel != "/" else "") + "/."
     if mut == "qmark":
         return sel + "?arg1 arg2"
     if mut == "bar":
@@ -123,7 +125,7 @@ def _empty_ok(objs, rq):
     return o["kind"] == "menu" or o.get("content") == ""
 
 
-_NOTFOUND_MUTS = {"nul", "pctnul", "msg0", "msgneg", "msghuge", "msgx", "dslash", "dotdot", "missing"}
+_NOTFOUND_MUTS = {"nul", "pctnul", "msg0", "msgneg", "msghuge", "msgx", "dslash", "dotdot", "missing", "dotseg"}
 
 
 def _expected(objs, rq):
